@@ -304,7 +304,7 @@ func checkSlotAccounting(p *Program, r *Result) {
 				if !ok {
 					continue
 				}
-				if tn, f, _, ok := fieldRef(fs.Addr); !ok || tn != "indexedMessageIterator" || f != "messageIndexes" {
+				if tn, f, _, ok := fieldRef(fs.Addr); !ok || tn != p.roles().qType || f != p.roles().qField {
 					continue
 				}
 				if !(fs.Block() == s.in.Block() || fs.Block().Dominates(s.in.Block())) {
@@ -336,7 +336,7 @@ func checkSlotAccounting(p *Program, r *Result) {
 			paired := false
 			for _, in := range s.in.Block().Instrs {
 				if fs, ok := in.(*ssa.Store); ok {
-					if tn, f, _, ok := fieldRef(fs.Addr); ok && tn == "indexedMessageIterator" && f == "curMessageIndex" {
+					if tn, f, _, ok := fieldRef(fs.Addr); ok && tn == p.roles().cType && f == p.roles().cField {
 						paired = true
 					}
 				}
